@@ -1,4 +1,4 @@
-import Exetera.Lemmas.GroupByTheorems
+import Exetera.Lemmas.GroupByAggregate
 /-!
 # C07 — group-by results equal the group-wise reference computation
 
@@ -197,5 +197,49 @@ theorem sorted_hint_irrelevant_agg (agg : Agg) (keys : List KeyCol) (targets : L
   simp only [groupbyAgg, groupbyCount, groupbyDistinct, h, and_self]
 
 example : groupby .repaired [⟨id, [0, 0, 1, 1, 1]⟩] true = groupby .repaired [⟨id, [0, 0, 1, 1, 1]⟩] false := rfl
+
+/-! ## the specification determines the result; Session.aggregate_* -/
+
+/-- `IsGroupBy` has at most one solution: two results meeting the specification have the same keys and values -/
+theorem spec_determines_result {rows : List (List Int)} {tgt : List Int} {agg : List Int → Option Int}
+    {k₁ k₂ : List (List Int)} {v₁ v₂ : List Int} (h₁ : IsGroupBy rows tgt agg k₁ v₁) (h₂ : IsGroupBy rows tgt agg k₂ v₂) :
+    k₁ = k₂ ∧ v₁ = v₂ :=
+  isGroupBy_unique h₁ h₂
+
+/-- **`Session.aggregate_min|max|first|last(index, target)` agrees with `groupby` on pre-grouped data**: for a numeric
+    index in ascending order the session entry point succeeds (spans of the index, the `len(target) == spans[-1]` check,
+    the kernel) and returns exactly the value column of `df.groupby(index).<agg>(target)`, hint or no hint. -/
+theorem aggregate_agrees_on_pregrouped (agg : Agg) (index target : List Int) (hint : Bool)
+    (htarget : target.length = index.length) (hsorted : index.Pairwise (· ≤ ·)) :
+    ∃ kcols vals, groupbyAgg .repaired agg [⟨id, index⟩] hint [.plain target] = .ok ⟨kcols, [.ints vals]⟩ ∧
+      aggregate .repaired agg (.numeric index) (some target) = .ok vals := by
+  have hrect : Rect index.length [index] := by intro c hc; simp at hc; subst hc; rfl
+  have hframe : Frame [⟨id, index⟩] index.length := ⟨by simp, by simp⟩
+  obtain ⟨kcols, vals, outKeys, h1, _, hg1⟩ := groupby_eq_spec agg [⟨id, index⟩] hint target index.length hframe htarget
+    (by simp [SameDtype]) (fun _ => rowsSorted_of_sortedRows [index] index.length hrect (sortedRows_single index hsorted))
+  obtain ⟨vals', outKeys', h2, hg2⟩ := aggregate_spec agg index target htarget hsorted
+  have hrows : keyRows index.length (cols [⟨id, index⟩]) = rowsBy [index] index.length := keyRows_eq_rowsBy [index] _ hrect
+  rw [hrows] at hg1
+  obtain ⟨_, hv⟩ := isGroupBy_unique hg1 hg2
+  exact ⟨kcols, vals, h1, by rw [h2, hv]⟩
+
+/-- `Session.aggregate_count(index)` agrees with `df.groupby(index).count()` on pre-grouped data -/
+theorem aggregate_count_agrees_on_pregrouped (index : List Int) (hint : Bool) (hsorted : index.Pairwise (· ≤ ·)) :
+    ∃ kcols counts, groupbyCount .repaired [⟨id, index⟩] hint = .ok ⟨kcols, [.ints counts]⟩ ∧
+      aggregateCount .repaired (.numeric index) = .ok counts := by
+  have hrect : Rect index.length [index] := by intro c hc; simp at hc; subst hc; rfl
+  have hframe : Frame [⟨id, index⟩] index.length := ⟨by simp, by simp⟩
+  obtain ⟨kcols, counts, outKeys, h1, _, hg1, _⟩ := groupby_count_eq_spec [⟨id, index⟩] hint index.length hframe
+    (by simp [SameDtype]) (fun _ => rowsSorted_of_sortedRows [index] index.length hrect (sortedRows_single index hsorted))
+  obtain ⟨counts', outKeys', h2, hg2⟩ := aggregateCount_spec index hsorted
+  have hrows : keyRows index.length (cols [⟨id, index⟩]) = rowsBy [index] index.length := keyRows_eq_rowsBy [index] _ hrect
+  rw [hrows] at hg1
+  have hk := distinctAscending_unique hg1.1 hg2.1
+  subst hk
+  exact ⟨kcols, counts, h1, by rw [h2, hg2.2, hg1.2]⟩
+
+example : aggregate .repaired .max (.numeric [1, 1, 2, 2, 2, 5]) (some [5, 6, 1, 9, 3, 4]) = .ok [6, 9, 4] ∧
+    groupbyAgg .repaired .max [⟨id, [1, 1, 2, 2, 2, 5]⟩] false [.plain [5, 6, 1, 9, 3, 4]] = .ok ⟨[[1, 2, 5]], [.ints [6, 9, 4]]⟩ :=
+  ⟨rfl, rfl⟩
 
 end Exetera.Props.C07
